@@ -123,21 +123,23 @@ Qed.
 
 (* table_lookup_is_cyclic_lerp: every output of table(freq, phase) is the cyclic linear
    interpolation of the table at the position produced by the phase counter *)
-Theorem table_lookup_is_cyclic_lerp tbl cycles freq phase k :
-  tbl <> [] -> cycles * (1 + 1) * pi_fl <> 0 ->
-  let len := nq (length tbl) in
-  let cl := len / (cycles * (1 + 1) * pi_fl) in
-  let pos := modulo_counter (scale_arg cl phase) (Num len) (scale_arg cl freq) k in
-  table_call tbl cycles freq phase k = (map (cyc_lerp tbl) (fst pos), snd pos).
+Theorem table_lookup_is_cyclic_lerp tbl cl freq phase k :
+  tbl <> [] ->
+  let pos := modulo_counter (scale_arg cl phase) (Num (nq (length tbl))) (scale_arg cl freq) k in
+  table_call_cl tbl cl freq phase k = (map (cyc_lerp tbl) (fst pos), snd pos).
 Proof.
-  intros Ht Hd. cbv zeta. unfold table_call.
-  rewrite (proj2 (Qc_is0_false _) Hd). unfold res_map. apply res_map_all_some.
+  intros Ht. cbv zeta. unfold table_call_cl, res_map. apply res_map_all_some.
   assert (Hlen : 0 < nq (length tbl)).
   { destruct tbl as [|x t]; [congruence|]. cbn [length]. rewrite nq_S. pose proof (nq_nonneg (length t)). qc_lra. }
-  pose proof (modulo_counter_range (scale_arg (nq (length tbl) / (cycles * (1 + 1) * pi_fl)) phase)
-                (nq (length tbl)) (scale_arg (nq (length tbl) / (cycles * (1 + 1) * pi_fl)) freq) k Hlen) as R.
+  pose proof (modulo_counter_range (scale_arg cl phase) (nq (length tbl)) (scale_arg cl freq) k Hlen) as R.
   eapply Forall_impl; [|exact R]. intros v [V0 V1]. apply lerp_call_is_cyc_lerp; assumption.
 Qed.
+
+Theorem table_call_exact_cycles tbl cycles freq phase k :
+  cycles * (1 + 1) * pi_fl <> 0 ->
+  table_call tbl cycles freq phase k
+  = table_call_cl tbl (nq (length tbl) / (cycles * (1 + 1) * pi_fl)) freq phase k.
+Proof. intro H. unfold table_call. rewrite (proj2 (Qc_is0_false _) H). reflexivity. Qed.
 
 (* ------------------------------------------------------------------ __getitem__ *)
 Theorem getitem_is_cyclic_lerp tbl idx :
@@ -275,3 +277,150 @@ Proof.
   unfold sinusoid_args. cbn [modulo_counter]. rewrite mc_nnn_sss.
   rewrite mc_const_closed; [reflexivity|]. intro H. apply Qc_eq_this in H. vm_compute in H. discriminate.
 Qed.
+
+(* ------------------------------------------------------------------ normalize, in full *)
+Lemma Qc_abs_bound x b : Qc_abs x <= b -> - b <= x /\ x <= b.
+Proof.
+  unfold Qc_abs. destruct (Qc_ltb x 0) eqn:E; intro H.
+  - apply Qc_ltb_spec in E. split; qc_lra.
+  - assert (P : 0 <= x).
+    { destruct (Qc_leb 0 x) eqn:L; [apply Qc_leb_spec in L; exact L|]. unfold Qc_ltb in E. rewrite L in E. discriminate. }
+    split; qc_lra.
+Qed.
+Lemma Qc_abs_nonneg x : 0 <= Qc_abs x.
+Proof.
+  unfold Qc_abs. destruct (Qc_ltb x 0) eqn:E.
+  - apply Qc_ltb_spec in E. qc_lra.
+  - destruct (Qc_leb 0 x) eqn:L; [apply Qc_leb_spec in L; exact L|]. unfold Qc_ltb in E. rewrite L in E. discriminate.
+Qed.
+Lemma Qc_abs_zero x : Qc_abs x = 0 -> x = 0.
+Proof.
+  unfold Qc_abs. destruct (Qc_ltb x 0) eqn:E; intro H; [|exact H].
+  apply Qc_ltb_spec in E. exfalso. qc_lra.
+Qed.
+
+Lemma div_unit_pos x d : 0 < d -> - d <= x -> x <= d -> - (1) <= x / d /\ x / d <= 1.
+Proof.
+  intros Hd H1 H2.
+  assert (Nd : d <> 0) by (intro E; subst; apply (Qclt_not_eq _ _ Hd); reflexivity).
+  split; apply (Qcmult_lt_0_le_reg_r _ _ d Hd); rewrite Qc_div_mul by exact Nd.
+  - replace (- (1) * d) with (- d) by ring. exact H1.
+  - replace (1 * d) with d by ring. exact H2.
+Qed.
+
+Lemma div_opp x d : d <> 0 -> (- x) / (- d) = x / d.
+Proof.
+  intro H. field. repeat split; try exact H; intro Hc; apply H; qc_lra.
+Qed.
+
+Lemma div_unit x d : d <> 0 -> Qc_abs x <= Qc_abs d -> - (1) <= x / d /\ x / d <= 1.
+Proof.
+  intros Nd H. apply Qc_abs_bound in H as [H1 H2]. unfold Qc_abs in H1, H2.
+  destruct (Qc_ltb d 0) eqn:E.
+  - apply Qc_ltb_spec in E. rewrite <- (div_opp x d Nd).
+    apply div_unit_pos; qc_lra.
+  - assert (P : 0 < d).
+    { destruct (Qc_leb d 0) eqn:L.
+      - apply Qc_leb_spec in L. exfalso. apply Nd. apply Qcle_antisym; [exact L|].
+        destruct (Qc_leb 0 d) eqn:L2; [apply Qc_leb_spec in L2; exact L2|]. unfold Qc_ltb in E. rewrite L2 in E. discriminate.
+      - apply Qc_ltb_spec. unfold Qc_ltb. rewrite L. reflexivity. }
+    apply div_unit_pos; assumption.
+Qed.
+
+(* an empty or all-zero table cannot be normalized: ValueError *)
+Theorem normalize_zero t1 c1 : (forall x, In x t1 -> x = 0) -> table_normalize t1 c1 = TRaise "ValueError".
+Proof.
+  intro H. unfold table_normalize. destruct t1 as [|x l]; [reflexivity|].
+  rewrite (H _ (max_abs_from_in l x)). reflexivity.
+Qed.
+
+(* otherwise: division by the first entry mx of maximal magnitude; all values in [-1, 1], the value 1 is reached *)
+Theorem normalize_full t1 c1 : (exists x, In x t1 /\ x <> 0) ->
+  exists mx, In mx t1 /\ mx <> 0 /\ (forall x, In x t1 -> Qc_abs x <= Qc_abs mx) /\
+    table_normalize t1 c1 = TOk (map (fun x => x / mx) t1) c1 /\
+    (forall y, In y (map (fun x => x / mx) t1) -> - (1) <= y /\ y <= 1) /\
+    In 1 (map (fun x => x / mx) t1).
+Proof.
+  intros [x0 [Hin Hx0]]. destruct t1 as [|x l]; [destruct Hin|].
+  set (mx := max_abs_from x l).
+  assert (Hge : forall y, In y (x :: l) -> Qc_abs y <= Qc_abs mx) by (intros; apply max_abs_from_ge; assumption).
+  assert (Nmx : mx <> 0).
+  { intro E. specialize (Hge x0 Hin). rewrite E in Hge. apply Hx0. apply Qc_abs_zero.
+    apply Qcle_antisym; [exact Hge|apply Qc_abs_nonneg]. }
+  exists mx. split; [apply max_abs_from_in|]. split; [exact Nmx|]. split; [exact Hge|]. split; [|split].
+  - destruct (table_normalize (x :: l) c1) as [r cr|e] eqn:E.
+    + destruct (normalize_spec _ _ _ _ E) as [mx' [_ [_ [_ [Hc Hr]]]]].
+      unfold table_normalize in E. fold mx in E. rewrite (proj2 (Qc_is0_false mx) Nmx) in E.
+      unfold table_binop_ts in E.
+      assert (M : forall t, map_opt (fun a => apply_binop ODiv a mx) t = Some (map (fun a => a / mx) t)).
+      { induction t as [|a t IH]; [reflexivity|]. cbn [map_opt map]. rewrite IH.
+        unfold apply_binop. rewrite (proj2 (Qc_is0_false mx) Nmx). reflexivity. }
+      rewrite M in E. cbn [tbl_result] in E. symmetry. exact E.
+    + exfalso. unfold table_normalize in E. fold mx in E. rewrite (proj2 (Qc_is0_false mx) Nmx) in E.
+      unfold table_binop_ts in E.
+      assert (M : forall t, map_opt (fun a => apply_binop ODiv a mx) t = Some (map (fun a => a / mx) t)).
+      { induction t as [|a t IH]; [reflexivity|]. cbn [map_opt map]. rewrite IH.
+        unfold apply_binop. rewrite (proj2 (Qc_is0_false mx) Nmx). reflexivity. }
+      rewrite M in E. discriminate.
+  - intros y Hy. apply in_map_iff in Hy as [z [<- Hz]]. apply div_unit; [exact Nmx|apply Hge; exact Hz].
+  - apply in_map_iff. exists mx. split; [field; exact Nmx|apply max_abs_from_in].
+Qed.
+
+(* ------------------------------------------------------------------ harmonize *)
+Lemma nth_nil_0 j : nth j (@nil Qc) 0 = 0.
+Proof. destruct j; reflexivity. Qed.
+
+Lemma nth_skipn0 (l : list Qc) : forall n i, nth i (skipn n l) 0 = nth (n + i) l 0.
+Proof.
+  induction l as [|x l IH]; intros n i.
+  - rewrite skipn_nil, !nth_nil_0. reflexivity.
+  - destruct n as [|n]; [reflexivity|]. cbn [skipn plus nth]. apply IH.
+Qed.
+
+Lemma every_nth_aux_nth p : forall fuel l j, (length l <= fuel)%nat ->
+  nth j (every_nth_aux fuel p l) 0 = nth (j * S p) l 0.
+Proof.
+  induction fuel as [|f IH]; intros l j H.
+  - destruct l; [|cbn [length] in H; lia]. cbn [every_nth_aux]. rewrite !nth_nil_0. reflexivity.
+  - destruct l as [|x l]; [cbn [every_nth_aux]; rewrite !nth_nil_0; reflexivity|].
+    cbn [every_nth_aux]. destruct j as [|j]; [reflexivity|].
+    cbn [nth]. rewrite IH by (rewrite skipn_length; cbn [length] in H; lia).
+    rewrite nth_skipn0. replace (S j * S p)%nat with (S (p + j * S p)) by lia. reflexivity.
+Qed.
+
+Lemma every_nth_aux_length p : forall fuel l, (length l <= fuel)%nat ->
+  length (every_nth_aux fuel p l) = ((length l + p) / S p)%nat.
+Proof.
+  induction fuel as [|f IH]; intros l H.
+  - destruct l; [|cbn [length] in H; lia]. cbn [every_nth_aux length]. symmetry. apply Nat.div_small. lia.
+  - destruct l as [|x l]; [cbn [every_nth_aux length]; symmetry; apply Nat.div_small; lia|].
+    cbn [every_nth_aux length]. rewrite IH by (rewrite skipn_length; cbn [length] in H; lia).
+    rewrite skipn_length.
+    replace (S (length l) + p)%nat with (length l + 1 * S p)%nat by lia.
+    rewrite Nat.div_add by lia.
+    destruct (le_lt_dec p (length l)) as [G|G].
+    + replace (length l - p + p)%nat with (length l) by lia. lia.
+    + replace (length l - p + p)%nat with p by lia.
+      rewrite (Nat.div_small p) by lia. rewrite (Nat.div_small (length l)) by lia. reflexivity.
+Qed.
+
+Lemma cyc_every_nth p t i :
+  cyc_nth (every_nth p t) i = nth ((i mod ((length t + p) / S p)) * S p) t 0.
+Proof.
+  unfold cyc_nth, every_nth. rewrite every_nth_aux_length by lia.
+  apply every_nth_aux_nth. lia.
+Qed.
+
+(* harmonize_spec: sample i of the new table is  sum over (partial p, amplitude a) of
+   a * table[((i mod ceil(len/(p+1))) * (p+1))]  - the cycled every-(p+1)-th-sample sub-table *)
+Theorem harmonize_spec t1 c1 h : h <> [] ->
+  table_harmonize t1 c1 h = TOk (map (harm_sample t1 h) (seq 0 (length t1))) c1.
+Proof.
+  intro Hh. unfold table_harmonize. destruct h as [|pa h']; [congruence|].
+  f_equal. apply map_ext. intro i. unfold harm_sample.
+  generalize (pa :: h'). intro h. induction h as [|[p a] h IH]; [reflexivity|].
+  cbn [fold_right fst snd]. rewrite IH, cyc_every_nth. reflexivity.
+Qed.
+
+Theorem harmonize_empty t1 c1 : table_harmonize t1 c1 [] = TRaise "AttributeError".
+Proof. reflexivity. Qed.
